@@ -225,7 +225,7 @@ def evaluate_form(spec, wd, real_numba=False):
         diff = float(np.nanmax(np.abs(np.asarray(A_c).astype(np.complex128) - np.asarray(A_n).astype(np.complex128))))
         if not diff <= 2e3 * u * scale:
             return viol("value", f"({itype},{sid}) entity {ent}: numba and C kernels differ by {diff:.3e} at scale {scale:.3e} ({st_})")
-        if real_numba and "scipy.special" not in text and not fr.complex:
+        if real_numba and "scipy.special.jn(" not in text and "scipy.special.yn(" not in text and not fr.complex:
             # the generated function as numba itself compiles it (cfunc, nopython), called through its C pointer
             try:
                 A_r, nk = real_numba_group(text, names[0][1], fr, itype, sid, ent, data, st_)
